@@ -1254,7 +1254,12 @@ class NodeBase(ABC):
         return result
 
     def _new_tag_node_from_definition(self, definition: _TagDefinition) -> TagNode:
-        return self.parent._new_tag_node_from_definition(definition)
+        parent = self.parent
+        if parent is None:
+            raise InvalidOperation(
+                "Not all node types can be added as siblings to a root node."
+            )
+        return parent._new_tag_node_from_definition(definition)
 
     @property
     @abstractmethod
